@@ -329,6 +329,14 @@ func summarize(prop, tier string, seed int, pc *PropCfg, reps []*FuncReport, x *
 		}
 		degraded = append(degraded, r.Degraded...)
 		notes = append(notes, r.Notes...)
+		if verbose {
+			for _, n := range r.Notes {
+				fmt.Println("  note:", n)
+			}
+			for _, n := range r.Degraded {
+				fmt.Println("  degraded:", n)
+			}
+		}
 		for _, o := range r.Obls {
 			if o.Expect == "sat" {
 				nCover++
